@@ -59,6 +59,10 @@ class BaseValidator(object):
         self._expected_item_count = len(self._cid.field_formats)
         self._location = None
         self._is_closed = False
+        # Start with a clean state even if the CID has already been used to validate other data. Otherwise
+        # checks would remember for example unique keys from a previous data set.
+        for check in self._cid.check_map.values():
+            check.reset()
 
     def __enter__(self):
         return self
